@@ -443,8 +443,11 @@ def classify(direction: str, seq: tuple[str, ...], names: str, shape: list, rt_e
                 idx = names.index(who)  # positional-capable formals come first, so this is the position
                 if idx < len(ps):
                     src.append(ps[idx])
-            src += sorted({"keyword" if a[0] == "k" else "typeddict-kw" for a in shape
-                           if (a[0] == "k" and a[1] == who) or (a[0] == "d" and who in a[1])})
+            # (a multiset: one keyword + one **TypedDict is a different shape from two **TypedDicts or from
+            # *tuple + two **TypedDicts, and a defect in one must not hide behind a recorded other)
+            sup = Counter("keyword" if a[0] == "k" else "typeddict-kw" for a in shape
+                          if (a[0] == "k" and a[1] == who) or (a[0] == "d" and who in a[1]))
+            src += [k if n == 1 else f"{k}x{n}" for k, n in sorted(sup.items())]
             into_kw = kind not in ("pk", "pkd", "ko", "kod")
             return f"calls:false-accept:{'+'.join(src)}-duplicate" + ("-into-**kw" if into_kw else "")
         return f"calls:false-accept:{_norm_rt(rt_err)}"
